@@ -10,6 +10,8 @@
 (*   alt   second admissible canonical text (only with -0.0 like literals) *)
 (*   bad   number literals the enforced variant must refuse (ASCII bytes)  *)
 (*   nz    the text holds the literal -0 (enforced variant unconstrained)  *)
+(*   ast   supplementary code points an ill-formed text really holds: an   *)
+(*         accepted ill-formed text may not produce any other              *)
 (* and the room version table is emitted once (ASSUME at the end).         *)
 (***************************************************************************)
 EXTENDS CanonJSON, Json
@@ -178,7 +180,8 @@ FamMix == {Sc("mix", MixDoc, 1, IF Quick THEN 1 ELSE 2, TRUE, FALSE)}
 \* --- family cor: every Corrupt action at every position of a few documents ----------------
 CorDocs == { VObj(<<Mem(Ka, VArr(<<One, VStr(<<98, 10>>)>>)), Mem(Kc, VObj(<<>>)), Mem(<<100>>, VNull)>>),
              VArr(<<VTrue, VNum(<<45, 49, 46, 53, 101, 51>>), VObj(<<Mem(<<107>>, VStr(<<118>>))>>)>>),
-             VStr(<<115>>), VNum(Zero), VObj(<<>>), VArr(<<>>), VFalse }
+             VStr(<<115>>), VNum(Zero), VObj(<<>>), VArr(<<>>), VFalse,
+             VObj(<<Mem(<<128512>>, VStr(<<128512, 97>>))>>) }
 FamCor == {Sc("cor", v, 0, 0, FALSE, TRUE) : v \in CorDocs}
 
 \* --- family edge: code points at the boundaries of the escape rules and of UTF-8 / UTF-16 -------------
@@ -239,7 +242,8 @@ Emit == Done =>
                    exp  |-> IF val THEN Canon(scen.v) \o <<>> ELSE <<>>,
                    alt  |-> IF val /\ CanonAlt(scen.v) # Canon(scen.v) THEN CanonAlt(scen.v) \o <<>> ELSE <<>>,
                    bad  |-> IF val THEN InadmissibleLits(Parse(text).v) ELSE <<>>,
-                   nz   |-> val /\ HasNegZeroLit(Parse(text).v)]))
+                   nz   |-> val /\ HasNegZeroLit(Parse(text).v),
+                   ast  |-> IF status \in {"illformed", "dupkeys"} THEN AstralOf(Parse(text).v) \o <<>> ELSE <<>>]))
 
 \* the room version table (MatrixBase.tla), once per run
 ASSUME PrintT(ToJson([table |-> "versions",
